@@ -131,6 +131,7 @@ def st_model(big):
             "mospin": st.sampled_from([False, False, True]),
             "mospin_blank": st.booleans(),
             "chain": st.sampled_from([0] * 11 + [97, 99, 104]),
+            "deep_core": st.sampled_from([False, False, False, True]),
             "max_nbasis": st.sampled_from([45, 60] if big else [30, 40]),
         }
     )
@@ -220,7 +221,11 @@ def build(spec):
             occ = (np.arange(norba) < na).astype(float) + (np.arange(norba) < nb).astype(float)
         spins = [1 if v == 1.0 and not natural else 3 for v in occ]
     occ = np.round(occ, style["occ_dec"])
-    ene = np.round(np.clip(ene, -90, 90), style["ene_dec"])
+    ene = np.clip(ene, -90, 90)
+    if spec["deep_core"]:
+        # an orbital energy that fills its field: F12.6 / F12.8
+        ene[0] = -1234.5 - rng.random() if spec["style"] == "gaussian" else -98.5 - rng.random()
+    ene = np.round(ene, style["ene_dec"])
     prims, printed, tbasis, tcoeffs = expand(wf, cmat, spec["prim_order"], spec["type_order"], style["coef_sig"])
     return {
         "wf": wf, "title": spec["title"], "style": spec["style"], "names": spec["names"],
@@ -231,6 +236,7 @@ def build(spec):
         "energy": round(float(-abs(rng.normal()) * 120 - 0.4), 10),
         "virial": round(float(2 + rng.normal() * 0.01), 8),
         "energy_line": "aldet" if natural and spec["style"] == "gaussian" else spec["style"],
+        "deep_core": spec["deep_core"],
     }
 
 
@@ -308,10 +314,13 @@ def digits_of(model):
 
 def truth_of(model):
     wf = model["wf"]
-    restricted = model["kind"] != "uhf"
+    # with $MOSPIN a restricted-open set without any doubly occupied / virtual orbital (type 3)
+    # is, in the file, nothing but a set of alpha orbitals
+    restricted = model["kind"] != "uhf" and not (model["mospin"] and 3 not in model["spins"])
+    norbb = model["norbb"] if (restricted or model["kind"] == "uhf") else 0
     mo = {
         "kind": "restricted" if restricted else "unrestricted",
-        "norba": model["norba"], "norbb": model["norbb"], "occs": model["occ"], "coeffs": model["tcoeffs"],
+        "norba": model["norba"], "norbb": norbb, "occs": model["occ"], "coeffs": model["tcoeffs"],
         "energies": model["ene"], "irreps": None, "occs_aminusb": None,
     }
     ambiguous = (not model["mospin"]) and float(model["occ"].max()) <= 1.0
@@ -362,6 +371,8 @@ def labels(spec, model):
         out.append("no_virtuals")
     if model["wf"]["natom"] >= 100:
         out.append("natom>=100")
+    if model["deep_core"]:
+        out.append("orbital_energy_fills_field")
     if model["energy_line"] == "aldet":
         out.append("energy_line_F20.10")
     lmax = max(0 if p[1] == "1" else len(p[1]) for p in model["prims"])
